@@ -139,6 +139,21 @@ Theorem C11_copy_reset_refuted_under_f2 :
 Proof. exact (copy_reset_refuted_of clone_kind_f2 eq_refl (fun _ => eq_refl) eq_refl eq_refl). Qed.
 Print Assumptions C11_copy_reset_refuted_under_f2.
 
+(* pins that no net mentions (a reserved Input, a pin left dangling by an earlier
+   in-place optimize, an unused Const) are wires of the block like any other:
+   every declared wire has its clone, and the copy has the source's interface
+   (every Input/Output pin, same width and class, at the corresponding identity) *)
+Theorem C11_copy_keeps_every_declared_wire : forall ck nl x,
+  In x (wires nl) -> In (clone_wire ck (fresh_map nl) x) (wires (fst (copy_with ck nl))).
+Proof. exact copy_keeps_every_declared_wire. Qed.
+Print Assumptions C11_copy_keeps_every_declared_wire.
+
+Theorem C11_copy_keeps_interface : forall nl,
+  iface (fst (copy_block nl))
+  = map (fun p => (snd (copy_block nl) (fst (fst p)), snd (fst p), snd p)) (iface nl).
+Proof. exact copy_spec_interface. Qed.
+Print Assumptions C11_copy_keeps_interface.
+
 (* (3) identities: no wire of the copy is a wire of the source; same counts;
    memories re-instantiated under the same ids *)
 Theorem C11_copy_disjoint : forall ck nl x y,
@@ -274,3 +289,21 @@ Example C11_example_heap :
   /\ hfingerprint h2 cp' <> hfingerprint h1 cp
   /\ hfingerprint h2 ex_hb = hfingerprint ex_heap ex_hb.
 Proof. vm_compute. repeat split; try reflexivity. intro H. discriminate H. Qed.
+
+(* a design with a reserved Input pin (wire 3) and an unused Const (wire 4) that
+   no net mentions: well-formed, the copy declares both, has the same interface,
+   and computes the same trace whatever is fed to the dangling pin *)
+Definition ex_pins : netlist :=
+  {| wires := [ mkWire 1 4 KInput; mkWire 2 4 KOutput; mkWire 3 2 KInput; mkWire 4 3 (KConst 5) ];
+     nets := [ mkNet OpNot [1] 2 ];
+     mems := [] |}.
+
+Example C11_example_dangling_pins :
+  wfb ex_pins = true
+  /\ fp_code (fst (copy_block ex_pins)) = fp_code (rename (snd (copy_block ex_pins)) ex_pins)
+  /\ iface (fst (copy_block ex_pins)) = [(6, 4, KInput); (7, 4, KOutput); (8, 2, KInput)]
+  /\ (let '(cp, f) := copy_block ex_pins in
+      probe_at (map f [1; 2; 3])
+        (fst (run cp 0 (init_state cp 0 [] []) (map (shift_ins 5) [(fun w => w + 2); (fun _ => 3)])))
+      = probe_at [1; 2; 3] (fst (run ex_pins 0 (init_state ex_pins 0 [] []) [(fun w => w + 2); (fun _ => 3)]))).
+Proof. vm_compute. repeat split; reflexivity. Qed.
